@@ -337,6 +337,46 @@ fn c08_pow_bad_exponent_is_error() {
     core::mem::forget((res, va, ve));
 }
 
+// ---------------------------------------------------------------------------
+// C01: allocations whose size the template chooses - sequence repetition.
+// ---------------------------------------------------------------------------
+
+macro_rules! repeat_huge_harness {
+    ($name:ident, $tuple:expr) => {
+        #[kani::proof]
+        #[kani::unwind(5)]
+        #[kani::stub(alloc::fmt::format, crate::verif_common::format_stub)]
+        #[kani::stub(std::hash::RandomState::new, crate::verif_common::random_state_stub)]
+        fn $name() {
+            // `seq * n` for a 2-element tuple / list and ANY count n >= 2^60 (the range in which len * n bytes
+            // exceed what Vec::with_capacity / usize arithmetic can represent): an error, never a panic
+            let n: u64 = kani::any();
+            kani::assume(n >= (1u64 << 60));
+            let items = vec![Value::from(1i64), Value::from(2i64)];
+            let seq = if $tuple { Value::from(Tuple::from(items)) } else { Value::from(items) };
+            let count = Value::from(n);
+            let r = mul(&seq, &count);
+            match r {
+                Ok(ref v) => {
+                    // a lazily repeated sequence may be returned only if its length is representable
+                    assert!(!$tuple);
+                    let _ = v;
+                    assert!(n < (1u64 << 63));
+                }
+                Err(ref e) => assert!(matches!(e.kind(), ErrorKind::InvalidOperation)),
+            }
+            kani::cover!(n == u64::MAX);
+            kani::cover!(n == (1u64 << 62));
+            core::mem::forget((r, seq, count));
+        }
+    };
+}
+
+// @verif-block props=C01 tier=quick cap=900 group=core doc=ops::mul(sequence,n)_for_a_2-element_tuple_/_list_and_ANY_repeat_count_n>=2^60:_returns_an_error_(or,_for_lists,_a_lazy_iterable_whose_length_2n_is_representable)_-_never_a_capacity-overflow_or_multiplication-overflow_panic
+repeat_huge_harness!(c01_repeat_tuple_huge_count, true);
+repeat_huge_harness!(c01_repeat_list_huge_count, false);
+// @verif-end
+
 #[cfg(test)]
 mod playback {
     use super::*;
